@@ -42,7 +42,7 @@ class Sides(object):
 
     def header_for(self, case):
         sp = self._spec(case)
-        return sp.prop.header if sp else super().header_for(case)
+        return sp.prop.header_for(case['c']) if sp else super().header_for(case)
 
     def cases(self, rng, tier):
         for c in super().cases(rng, tier):
